@@ -123,15 +123,19 @@ PROPERTIES = {
     },
     "C07": {
         "level": "proof",
-        "verus_units": ["nofrac", "remint@*"],
+        "verus_units": ["nofrac", "remint@*", "diveuclid@*"],
         "kani": _mods("rem8", ["i4f4", "i1f7", "u4f4"], REM) + ["rem8::div_euclid_region_reachable"],
         "kani_thorough": _mods("rem8", ["i0f8", "i8f0", "i6f2", "u0f8", "u8f0", "u1f7"], REM),
         "explanation": "Verus, all ten families, symbolic Frac: checked_rem / checked_rem_euclid / rem_euclid / % (unit nofrac); for a primitive-integer "
                        "divisor n (the value n, i.e. the possibly unrepresentable pattern n * 2^f): checked_rem_int, `fixed % integer`, wrapping_ / "
                        "overflowing_rem_int, overflowing_ / wrapping_ / plain rem_euclid_int — for the signed families the bit-level computation "
                        "(wrapping_abs, shift, mask, or) is proved equal to a mod |n * 2^f| reduced modulo 2^w with the exact overflow flag (unit remint); "
-                       "the Euclidean-division forms by Kani on 8-bit layouts outside the region of the known finding",
-        "bounded_parts": ["div_euclid / div_euclid_int families and the signed checked_rem_euclid_int (closure inside Option::map): 8-bit layouts only (Kani)"],
+                       "div_euclid / checked_ / wrapping_ / overflowing_div_euclid with a fixed-point divisor (unit diveuclid): for the unsigned families "
+                       "unconditionally, for the signed families OUTSIDE the region of the known finding F-C07-div-euclid (plain quotient representable, "
+                       "correction constant representable), where the result is the Euclidean quotient reduced modulo 2^w with the exact overflow flag; "
+                       "Kani re-checks all forms on 8-bit layouts outside that region and shows the region reachable",
+        "bounded_parts": ["saturating_div_euclid (closure), the div_euclid_int family and the signed checked_rem_euclid_int (closure inside Option::map): 8-bit layouts only (Kani)"],
+        "assumptions": ["R15: the non-short-circuit `overflow | overflow2` on two bool locals in overflowing_div_euclid is rendered as `||` (Verus has no `|` on bool)"],
     },
     "C10": {
         "level": "proof",
@@ -143,7 +147,7 @@ PROPERTIES = {
     "C11": {
         "level": "proof",
         "must_fail_quick": False,     # the vacuity twins of these units run under the property that owns each unit (and in C11 thorough)
-        "verus_units": ["arith_widen", "arith128", "widediv", "nofrac", "fracops", "round@*", "transc", "leaves", "cmp@*", "fromfixed@*", "fromfloat@*", "wrapping", "traitfwd@*", "intconv", "floatglue", "trig", "cmpfloat@*", "cmpfloatrev@*", "cmpint@*", "cmpintrev@*", "bitops@*", "remint@*"],
+        "verus_units": ["arith_widen", "arith128", "widediv", "nofrac", "fracops", "round@*", "transc", "leaves", "cmp@*", "fromfixed@*", "fromfloat@*", "wrapping", "traitfwd@*", "intconv", "floatglue", "trig", "cmpfloat@*", "cmpfloatrev@*", "cmpint@*", "cmpintrev@*", "bitops@*", "remint@*", "diveuclid@*"],
         "kani": [{"harness": h, "classes": ["panic"]} for h in
                  _mods("arith8", ["i4f4", "i0f8", "u4f4", "u0f8"], FORMS) + ["arith8::abs_forms_i8"] + TFH
                  + ["float::check_to_f32", "float::check_to_f64", "float::check_kind_f32", "float::check_kind_f64"]
